@@ -61,6 +61,7 @@ TRUSTED = [
 ASSUMPTIONS = [
     "intmax_t/uintmax_t are 64 bits",
     "one directive line, no macros inside the controlling expression except in the few corpus cases",
+    "generated shift counts are literals <= 200 (larger counts are undefined in C and only exercise CPython's big-int limits: `#if 1 << 18446744073709551615` raises MemoryError)",
 ]
 
 UNOPS = {"neg": "-", "bnot": "~", "lnot": "!", "plus": "+"}
@@ -205,8 +206,12 @@ def gen_tree(rng, depth, unsigned_p=0.25):
         return Q(gen_tree(rng, depth - 1, unsigned_p), gen_tree(rng, depth - 1, unsigned_p), gen_tree(rng, depth - 1, unsigned_p))
     op = rng.choice(list(BINOPS))
     a = gen_tree(rng, depth - 1, unsigned_p)
-    if op in ("shl", "shr") and rng.random() < 0.8:
-        b = N(rng.choice([0, 1, 2, 7, 31, 32, 62, 63, 64]))
+    if op in ("shl", "shr"):
+        # counts stay small: a count of 2^32 makes CPython build a 512 MB integer, 2^64-1 raises MemoryError
+        # (undefined in C anyway; see ASSUMPTIONS and notes/C26.md)
+        b = N(rng.choice([0, 1, 2, 7, 31, 32, 62, 63, 64, 65, 100, 200]))
+        if rng.random() < 0.1:
+            b = U("neg", b)
     elif op in ("div", "mod") and rng.random() < 0.6:
         b = N(rng.choice([1, 2, 3, 7, 10]))
         if rng.random() < 0.4:
